@@ -6,6 +6,13 @@
 // (join on an empty, detached or already joined handle: vsched strict joins), and AddressSanitizer with
 // detect_stack_use_after_return switched on for this binary (a thread that outlives the frame its context or its Thread
 // object lived in), read after the execution has drained its remaining threads.
+//
+// Re-use histories (family "reuse.*" and the ".x2"/".x3" scenarios): ONE object taken through several complete cycles. The first cycle
+// leaves state behind (the finished flag stays set: nothing in the library resets it; the handle is consumed by join() or by a copy;
+// the semaphore count is back to 0), and every later cycle must give exactly the guarantees of the first: its function runs exactly
+// once more (and the earlier ones not again), join() returns only after it completed with its effects visible, finished() is true
+// afterwards. What finished() says between a later start() and the end of that run is NOT demanded (the statement says "true from
+// then on", and the unchanged library keeps the flag set): it is only counted (w.reuse_finished_still_set_during_later_run).
 #include <asl/Thread.h>
 #include <asl/Mutex.h>
 #include <asl/Array.h>
@@ -18,7 +25,8 @@ using vf::fmt;
 extern "C" void* __asan_get_current_fake_stack(void) __attribute__((weak));
 
 static int C_EXEC, C_POINTS, C_JOBS, W_PREEMPT, C_STATES, W_WORKER_FIRST, W_TIMEOUT, W_EARLY, W_SEM_TO, W_SEM_BOTH_TO, W_SEM_ACQ, W_COND_TO, W_COND_SIG,
-	C_EXPECT_PRE, C_WITH_PRE, C_SKIPPED, W_UAR, W_CREATOR_FIRST, W_TRY_FAIL, W_TRY_OK, W_YIELD_FORCED, W_DEFAULT_NTH, W_COPY_RUNNING, W_ALL_BEHIND, W_READY_POINT = -1;
+	C_EXPECT_PRE, C_WITH_PRE, C_SKIPPED, W_UAR, W_CREATOR_FIRST, W_TRY_FAIL, W_TRY_OK, W_YIELD_FORCED, W_DEFAULT_NTH, W_COPY_RUNNING, W_ALL_BEHIND, W_READY_POINT = -1,
+	W_REUSE_CYCLES, W_REUSE_WAIT, W_REUSE_STALE, W_REUSE_GROUP, W_REUSE_GROUP_GROW, W_PFOR_TWICE, W_INVOKE_TWICE, W_SEM_ROUND2, W_COND_ROUND2, W_SEM_TO_THEN_ACQ, W_COND_TO_THEN_SIG, W_FINISH_HOOK, W_FUNCTOR_DTOR;
 static std::string g_case;
 static void onFatal(const char* what, const std::string& schedule) {
 	std::string w = what; for (size_t i = 0; i < w.size(); i++) w[i] = (char)tolower(w[i]);
@@ -29,6 +37,7 @@ static void onFatal(const char* what, const std::string& schedule) {
 
 // all state that scenarios touch; reset per execution
 static volatile int g_runs[16], g_value, g_hits[64], g_cap[4];
+static int g_final[16]; // run count each slot must show when the execution is over (all threads drained); -1 = not demanded
 static int g_timeouts; // timed waits that reported a timeout in this execution
 static int g_body; // 0 empty, 1 yield, 2 write-then-yield, 3 yield-then-write
 static void bodyFn(int idx) { if (g_body == 1 || g_body == 3) vsched::point(); g_value = 42; g_runs[idx]++; if (g_body == 2) vsched::point(); }
@@ -210,14 +219,236 @@ static std::vector<Scenario> scenarios(bool T) {
 	return v;
 }
 
+// ------------------------------------------------------------------ re-use histories of one object
+// One Thread object t taken through c complete cycles. Kind of a cycle (how the thread is started and how its handle is consumed):
+//   S  t.start(); t.join()                                   C  t.start(); copy v(t); v.join()   (the copy takes the handle)
+//   F  Thread::start(f, &t); t.join()                        A  t = Thread::start(f, &t); t.join()
+//   K  Thread v = Thread::start(f, &t); v.join()             U  u = Thread::start(f, &t); u.join()   (u: a second object kept over all cycles; operator= copies t's flag)
+// Every cycle has its own counter slot, body shape (0..3 as above), captured value and reference.
+struct ReuseThread : public Thread { volatile int slot, shape; ReuseThread() : slot(0), shape(0) {} void run() { int j = slot, b = shape; if (b == 1 || b == 3) vsched::point(); g_value = 42 + j; g_runs[j]++; if (b == 2) vsched::point(); } };
+static std::string othersUntouched(int j, int n, const char* what) {
+	std::string bad;
+	for (int i = 0; i < n; i++) { int want = i <= j ? 1 : 0; if (i != j && g_runs[i] != want) bad += fmt("%s %d had run %d time(s) when the join() of cycle %d returned, expected %d; ", what, i + 1, (int)g_runs[i], j + 1, want); }
+	return bad;
+}
+static std::string reuseHistory(const std::string& kinds, const std::string& bodies) {
+	std::string bad; int c = (int)kinds.size();
+	{
+		ReuseThread t; Thread& tb = t; Thread u; volatile int x = 0;
+		for (int j = 0; j < c; j++) {
+			char kd = kinds[j]; int b = bodies[j] - '0', k = 1000 + 10 * j + b;
+			bool lam = kd != 'S' && kd != 'C', fin = false;
+			g_value = 0; x = 0; t.slot = j; t.shape = b; g_final[j] = 1;
+			auto f = [j, b, k, &x]() { if (b == 1 || b == 3) vsched::point(); g_cap[j] = k; x = k + 1; g_value = 42 + j; g_runs[j]++; if (b == 2) vsched::point(); };
+			bool f1 = false; int r1 = 0;
+			#define POLL() do { f1 = t.finished(); r1 = g_runs[j]; } while (0)
+			switch (kd) {
+			case 'S': t.start(); POLL(); t.join(); fin = t.finished(); break;
+			case 'C': { t.start(); POLL(); ReuseThread v(t); v.join(); fin = t.finished(); } break;
+			case 'F': Thread::start(f, &t); POLL(); clobberStack(); t.join(); fin = t.finished(); break;
+			case 'A': tb = Thread::start(f, &t); POLL(); clobberStack(); t.join(); fin = t.finished(); break;
+			case 'K': { Thread v = Thread::start(f, &t); POLL(); clobberStack(); v.join(); fin = t.finished() || v.finished(); } break;
+			default: u = Thread::start(f, &t); POLL(); clobberStack(); u.join(); fin = t.finished(); break;
+			}
+			#undef POLL
+			vf::add(W_REUSE_CYCLES);
+			if (j > 0 && r1 == 0) vf::add(W_REUSE_WAIT); // the creator was ahead of the function of a later cycle: this join() had something to wait for
+			if (j > 0 && f1 && r1 == 0) vf::add(W_REUSE_STALE); // not demanded either way, see the head of the file
+			if (j == 0 && f1 && r1 != 1) bad += "finished() was true before the function of the first cycle had completed; ";
+			if (g_runs[j] != 1) bad += fmt("the function of cycle %d (kind %c) had run %d time(s) when its join() returned, expected exactly once; ", j + 1, kd, (int)g_runs[j]);
+			bad += othersUntouched(j, c, "the function of cycle");
+			if (g_value != 42 + j) bad += fmt("effect of the function of cycle %d not visible after its join(); ", j + 1);
+			if (lam && g_runs[j] == 1 && g_cap[j] != k) bad += fmt("the value captured by the function of cycle %d did not reach the thread intact; ", j + 1);
+			if (lam && x != k + 1) bad += fmt("the write through the reference captured in cycle %d is not visible after its join(); ", j + 1);
+			if (!fin) bad += fmt("finished() is false after the join() of cycle %d (kind %c); ", j + 1, kd);
+			if (!bad.empty()) break; // later cycles would only repeat the consequences
+		}
+	}
+	clobberStack();
+	return bad;
+}
+static void enumHistories(std::vector<Scenario>& v, int c, const std::string& kindAlphabet, const std::string& bodyAlphabet, int bound) {
+	std::vector<int> ik(c, 0), ib(c, 0);
+	size_t nk = kindAlphabet.size(), nb = bodyAlphabet.size();
+	for (;;) {
+		std::string kinds, bodies; for (int j = 0; j < c; j++) { kinds += kindAlphabet[ik[j]]; bodies += bodyAlphabet[ib[j]]; }
+		Scenario s; s.name = "reuse." + kinds + "." + bodies + (bound >= 0 ? fmt(".b%d", bound) : std::string()); s.bound = bound;
+		s.body = [kinds, bodies]() { return reuseHistory(kinds, bodies); };
+		v.push_back(s);
+		int d = 0;
+		for (; d < 2 * c; d++) { std::vector<int>& a = d < c ? ib : ik; int i = d % c; size_t lim = d < c ? nb : nk; if ((size_t)++a[i] < lim) break; a[i] = 0; }
+		if (d == 2 * c) break;
+	}
+}
+// first use, but the thread still has code to execute on (or on behalf of) the object after the finished flag is set: the documented
+// finish() hook of a subclass, the destructor of the thread's own copy of a function object. join() must not return while the thread
+// is still alive; what is asserted is memory safety only (the objects die right after join(): ASan), not the effects of that code.
+struct HookThread : public Thread { volatile int idx, hooked; HookThread() : idx(0), hooked(0) {} void run() { bodyFn(idx); } void finish() { vsched::point(); hooked = hooked + 1; vf::add(W_FINISH_HOOK); } };
+struct DtorFunctor { volatile int* p; int idx; DtorFunctor(volatile int* q, int i) : p(q), idx(i) {} DtorFunctor(const DtorFunctor& o) : p(o.p), idx(o.idx) {} ~DtorFunctor() { bool thr = vsched::self() > 0; vsched::point(); *p = *p + 1; if (thr) vf::add(W_FUNCTOR_DTOR); } void operator()() const { bodyFn(idx); } };
+
+static void reuseScenarios(std::vector<Scenario>& v, bool T) {
+	// all histories of 2 cycles over the full alphabet under every schedule; 3 cycles: thorough, every schedule; quick: the stale-state kinds with the yielding bodies
+	enumHistories(v, 2, "SCFAKU", "0123", -1);
+	if (T) enumHistories(v, 3, "SCFAKU", "0123", 2); else enumHistories(v, 3, "SFU", "03", 1);
+	for (int b = 0; b < 4; b++) {
+		{ Scenario s; s.name = fmt("subclass_finish_hook.body%d", b); s.body = [b]() { g_body = b; std::string bad; { HookThread t; t.start(); t.join(); bad = ranOnce(0, "run()") + visible() + chk(t.finished(), "finished() is false after join()"); } clobberStack(); return bad; }; v.push_back(s); }
+		{ Scenario s; s.name = fmt("subclass_finish_hook.x2.body%d", b); s.body = [b]() { g_body = b; std::string bad; { HookThread t; t.start(); t.join(); bad = ranOnce(0, "run()"); t.idx = 1; g_value = 0; t.start(); t.join(); bad += ranOnce(1, "run() of the second cycle") + visible() + chk(g_runs[0] == 1, "run() of the first cycle was executed again") + chk(t.finished(), "finished() is false after the second join()"); } clobberStack(); g_final[0] = g_final[1] = 1; return bad; }; v.push_back(s); }
+		{ Scenario s; s.name = fmt("functor_dtor.body%d", b); s.body = [b]() { g_body = b; std::string bad; { volatile int cell = 0; { DtorFunctor f(&cell, 0); Thread t(f); t.join(); bad = ranOnce(0, "the function object") + visible() + chk(t.finished(), "finished() is false after join() of a function-object thread"); } } clobberStack(); return bad; }; v.push_back(s); }
+		{ Scenario s; s.name = fmt("functor_dtor_static.x2.body%d", b); s.body = [b]() { g_body = b; std::string bad; { volatile int cell = 0; Thread t; { DtorFunctor f(&cell, 0), g(&cell, 1); Thread::start(f, &t); t.join(); bad = ranOnce(0, "the function object"); g_value = 0; Thread::start(g, &t); t.join(); bad += ranOnce(1, "the function object of the second cycle") + visible() + chk(g_runs[0] == 1, "the function object of the first cycle was executed again") + chk(t.finished(), "finished() is false after the second join()"); } } clobberStack(); g_final[0] = g_final[1] = 1; return bad; }; v.push_back(s); }
+	}
+	// ThreadGroup: start(); join() r times on the same group; variant g: a member is added between the rounds (the array of threads is reallocated, the members are copied)
+	struct GroupSpec { int m, r, body, bq, bt; bool grow; };
+	static const GroupSpec gs[] = { { 1, 2, 1, -1, -1, false }, { 1, 3, 3, -1, -1, false }, { 2, 2, 0, -1, -1, false }, { 2, 2, 1, 2, 3, false }, { 2, 2, 2, 2, 3, false }, { 2, 2, 3, 2, 3, false }, { 2, 3, 1, 1, 2, false }, { 3, 2, 1, 1, 2, false }, { 3, 2, 0, 1, 2, false }, { 1, 2, 1, -1, -1, true }, { 2, 2, 3, 2, 3, true } };
+	for (size_t q = 0; q < sizeof gs / sizeof gs[0]; q++) {
+		GroupSpec G = gs[q]; int bound = T ? G.bt : G.bq;
+		Scenario s; s.name = fmt("threadgroup%d.x%d%s.body%d", G.m, G.r, G.grow ? "g" : "", G.body) + (bound >= 0 ? fmt(".b%d", bound) : std::string()); s.bound = bound;
+		s.body = [G]() {
+			std::string bad; int slot = 0;
+			{
+				ThreadGroup<ReuseThread> g; for (int i = 0; i < G.m; i++) g << ReuseThread();
+				for (int j = 0; j < G.r && bad.empty(); j++) {
+					if (G.grow && j > 0) { g << ReuseThread(); vf::add(W_REUSE_GROUP_GROW); }
+					int m = g._threads.length(), first = slot;
+					for (int i = 0; i < m; i++) { g._threads[i].slot = slot; g._threads[i].shape = G.body; g_final[slot] = 1; slot++; }
+					g.start(); g.join();
+					if (j > 0) vf::add(W_REUSE_GROUP);
+					for (int i = 0; i < 16; i++) { int want = i < slot ? 1 : 0; if (g_runs[i] != want) bad += fmt("%s had run %d time(s) when the join() of round %d of the group returned, expected %d; ", i < first ? fmt("member run %d of an earlier round", i + 1).c_str() : i < slot ? fmt("member %d", i - first + 1).c_str() : "a run that was never started", (int)g_runs[i], j + 1, want); }
+					for (int i = 0; i < m; i++) if (!g._threads[i].finished()) bad += fmt("finished() of member %d is false after the join() of round %d; ", i + 1, j + 1);
+				}
+			}
+			clobberStack();
+			return bad; };
+		v.push_back(s);
+	}
+	// parallel_invoke called again with the same call site (2, 3, 4 functions)
+	for (int n = 2; n <= 4; n++) for (int b = 0; b <= 3; b += 3) {
+		int bound = n == 2 ? -1 : n == 3 ? (T ? 2 : 1) : 1;
+		Scenario s; s.name = fmt("parallel_invoke%d.x2.body%d", n, b) + (bound >= 0 ? fmt(".b%d", bound) : std::string()); s.bound = bound;
+		s.body = [n, b]() {
+			g_body = b; std::string bad;
+			for (int j = 0; j < 2 && bad.empty(); j++) {
+				int o = 4 * j, k = 700 + 10 * j;
+				for (int i = 0; i < n; i++) g_final[o + i] = 1;
+				for (int i = 0; i < 4; i++) g_cap[i] = 0;
+				if (n == 2) Thread::parallel_invoke([k, o]() { bodyFn(o); g_cap[0] = k; }, [k, o]() { bodyFn(o + 1); g_cap[1] = k + 1; });
+				else if (n == 3) Thread::parallel_invoke([k, o]() { bodyFn(o); g_cap[0] = k; }, [k, o]() { bodyFn(o + 1); g_cap[1] = k + 1; }, [k, o]() { bodyFn(o + 2); g_cap[2] = k + 2; });
+				else Thread::parallel_invoke([k, o]() { bodyFn(o); g_cap[0] = k; }, [k, o]() { bodyFn(o + 1); g_cap[1] = k + 1; }, [k, o]() { bodyFn(o + 2); g_cap[2] = k + 2; }, [k, o]() { bodyFn(o + 3); g_cap[3] = k + 3; });
+				if (j > 0) vf::add(W_INVOKE_TWICE);
+				for (int i = 0; i < 8; i++) { int want = (i < 4 * j + n && i % 4 < n) ? 1 : 0; if (g_runs[i] != want) bad += fmt("function %d of call %d had run %d time(s) when call %d of parallel_invoke(%d) returned, expected %d; ", i % 4 + 1, i / 4 + 1, (int)g_runs[i], j + 1, n, want); }
+				for (int i = 0; i < n; i++) if (g_cap[i] != k + i) bad += fmt("function %d of call %d did not see its captured value; ", i + 1, j + 1);
+				clobberStack();
+			}
+			return bad; };
+		v.push_back(s);
+	}
+	// Semaphore: a second round on the same semaphore (count back to 0 after the first), consumer = the same Thread object started again
+	for (int k = 1; k <= 3; k++) for (int init = 0; init <= 1; init++) {
+		Scenario s; s.name = fmt("semaphore.%sk%d.x2", init ? "initial." : "", k);
+		s.body = [k, init]() {
+			Semaphore sem(init ? k : 0); int got = 0; std::string bad;
+			struct Cons : public Thread { Semaphore* s; int k; int* got; void run() { for (int i = 0; i < k; i++) { s->wait(); (*got)++; } } } c; c.s = &sem; c.k = k; c.got = &got;
+			for (int j = 0; j < 2 && bad.empty(); j++) {
+				c.start();
+				if (!(init && j == 0)) { if (j == 1 && k > 1) sem.post(k); else for (int i = 0; i < k; i++) sem.post(); }
+				c.join();
+				if (j > 0) vf::add(W_SEM_ROUND2);
+				if (got != k * (j + 1)) bad += fmt("the consumer had received %d of the %d permits when the join() of round %d returned; ", got, k * (j + 1), j + 1);
+				if (sem.value() != 0) bad += fmt("semaphore count not back to 0 after round %d; ", j + 1);
+			}
+			return bad; };
+		v.push_back(s);
+	}
+	// two consumers, two rounds, post(2) then two single posts
+	{ Scenario s; s.name = "semaphore.two_consumers.x2"; s.bound = T ? 3 : 2; s.body = []() {
+		Semaphore sem; int got[2] = { 0, 0 }; std::string bad;
+		struct Cons : public Thread { Semaphore* s; int* got; void run() { s->wait(); (*got)++; } } c1, c2; c1.s = c2.s = &sem; c1.got = &got[0]; c2.got = &got[1];
+		for (int j = 0; j < 2 && bad.empty(); j++) {
+			c1.start(); c2.start(); if (j == 0) sem.post(2); else { sem.post(); sem.post(); } c1.join(); c2.join();
+			if (j > 0) vf::add(W_SEM_ROUND2);
+			if (got[0] != j + 1 || got[1] != j + 1) bad += fmt("round %d: a waiter was not released (got %d and %d, expected %d each); ", j + 1, got[0], got[1], j + 1);
+			if (sem.value() != 0) bad += fmt("semaphore count not back to 0 after round %d; ", j + 1);
+		}
+		return bad; }; v.push_back(s); }
+	// a timed wait that ran into its timeout must not spoil the next round on the same semaphore, and the other way round
+	for (int order = 0; order < 2; order++) { Scenario s; s.name = fmt("semaphore.timedwait.x2.o%d", order); s.bound = 3; s.body = [order]() {
+		Semaphore sem; bool r[2] = { false, false }; std::string bad;
+		struct Cons : public Thread { Semaphore* s; bool* r; double to; std::string* bad; void run() { *r = semTimed(*s, to, *bad); } } c; c.s = &sem; c.bad = &bad;
+		for (int j = 0; j < 2; j++) {
+			bool posted = (j == 1) == (order == 0); // order 0: nobody posts in round 1, one post in round 2; order 1: the reverse
+			c.r = &r[j]; c.to = posted ? 5.0 : 0.5;
+			c.start(); if (posted) sem.post(); c.join();
+			if (j > 0) vf::add(W_SEM_ROUND2);
+			if (!posted && r[j]) bad += fmt("round %d: Semaphore::wait(0.5) reported a permit although nobody posted; ", j + 1);
+			if (posted && (r[j] ? 1 : 0) + sem.value() != 1) bad += fmt("round %d: the single post is neither consumed by the timed wait nor pending; ", j + 1);
+			if (posted && !r[j]) { if (!sem.trywait()) bad += "the pending post could not be taken; "; }
+			if (sem.value() != 0) bad += fmt("semaphore count not 0 at the end of round %d; ", j + 1);
+		}
+		if (order == 0 && !r[0] && r[1]) vf::add(W_SEM_TO_THEN_ACQ);
+		return bad; }; v.push_back(s); }
+	// trywait, two rounds: permits never lost or invented over both rounds
+	{ Scenario s; s.name = "semaphore.trywait.x2"; s.bound = T ? -1 : 3; s.body = []() {
+		Semaphore sem; int got = 0, failed = 0; std::string bad;
+		struct Cons : public Thread { Semaphore* s; int* got; int* failed; void run() { for (int i = 0; i < 2; i++) { if (s->trywait()) (*got)++; else (*failed)++; } } } c; c.s = &sem; c.got = &got; c.failed = &failed;
+		for (int j = 0; j < 2; j++) {
+			c.start(); sem.post(); c.join();
+			if (j > 0) vf::add(W_SEM_ROUND2);
+			if (got + sem.value() != j + 1) bad += fmt("round %d: permits taken by trywait() plus permits left do not add up to the posts; ", j + 1);
+			if (got + failed != 2 * (j + 1)) bad += fmt("round %d: trywait() calls lost; ", j + 1);
+		}
+		return bad; }; v.push_back(s); }
+	// Condition: the same condition, mutex and waiter thread object for a second round (constructor and use())
+	for (int useForm = 0; useForm < 2; useForm++) { Scenario s; s.name = useForm ? "condition.use.x2" : "condition.protocol.x2"; s.body = [useForm]() {
+		Mutex m; Condition c1(m), c2; c2.use(m); Condition& cond = useForm ? c2 : c1; bool ready = false; int seen = 0; std::string bad;
+		struct W : public Thread { Mutex* m; Condition* c; bool* ready; int* seen; void run() { m->lock(); while (!*ready) c->wait(); (*seen)++; m->unlock(); } } w; w.m = &m; w.c = &cond; w.ready = &ready; w.seen = &seen;
+		for (int j = 0; j < 2 && bad.empty(); j++) {
+			m.lock(); ready = false; m.unlock();
+			w.start();
+			m.lock(); ready = true; cond.signal(); m.unlock();
+			w.join();
+			if (j > 0) vf::add(W_COND_ROUND2);
+			if (seen != j + 1) bad += fmt("round %d: the waiter had observed the condition %d time(s) when its join() returned, expected %d; ", j + 1, seen, j + 1);
+		}
+		return bad; }; v.push_back(s); }
+	{ Scenario s; s.name = "condition.two_waiters.x2"; s.bound = T ? 2 : 1; s.body = []() {
+		Mutex m; Condition cond(m); bool ready = false; int seen[2] = { 0, 0 }; std::string bad;
+		struct W : public Thread { Mutex* m; Condition* c; bool* ready; int* seen; void run() { m->lock(); while (!*ready) c->wait(); (*seen)++; m->unlock(); } } w1, w2;
+		w1.m = w2.m = &m; w1.c = w2.c = &cond; w1.ready = w2.ready = &ready; w1.seen = &seen[0]; w2.seen = &seen[1];
+		for (int j = 0; j < 2 && bad.empty(); j++) {
+			m.lock(); ready = false; m.unlock();
+			w1.start(); w2.start();
+			m.lock(); ready = true; cond.signal(); m.unlock();
+			w1.join(); w2.join();
+			if (j > 0) vf::add(W_COND_ROUND2);
+			if (seen[0] != j + 1 || seen[1] != j + 1) bad += fmt("round %d: a waiter missed the signal; ", j + 1);
+		}
+		return bad; }; v.push_back(s); }
+	// timed waits on the same condition: a round that ran into its timeout followed by a signalled round, and the reverse
+	for (int order = 0; order < 2; order++) { Scenario s; s.name = fmt("condition.timedwait.x2.o%d", order); s.bound = 3; s.body = [order]() {
+		Mutex m; Condition cond(m); bool ready = false; std::string bad; int nto[2] = { 0, 0 }; bool sawReady[2] = { false, false };
+		struct W : public Thread { Mutex* m; Condition* c; bool* ready; int* nto; bool* saw; bool signalled; std::string* bad; void run() { m->lock(); if (signalled) { while (!*ready) { if (condTimed(*c, 5.0, *bad)) (*nto)++; } *saw = true; } else { if (condTimed(*c, 2.0, *bad)) (*nto)++; *saw = *ready; } m->unlock(); } } w; w.m = &m; w.c = &cond; w.ready = &ready; w.bad = &bad;
+		for (int j = 0; j < 2; j++) {
+			bool signalled = (j == 1) == (order == 0);
+			m.lock(); ready = false; m.unlock();
+			w.nto = &nto[j]; w.saw = &sawReady[j]; w.signalled = signalled;
+			w.start(); if (signalled) { m.lock(); ready = true; cond.signal(); m.unlock(); } w.join();
+			if (j > 0) vf::add(W_COND_ROUND2);
+			if (signalled && !sawReady[j]) bad += fmt("round %d: the waiter did not observe the signalled condition; ", j + 1);
+			if (signalled && nto[j] > 3) bad += fmt("round %d: the timed wait kept timing out although the condition was signalled under the mutex; ", j + 1);
+			if (!signalled && nto[j] != 1) bad += fmt("round %d: Condition::wait(2.0) that nobody signalled did not report its timeout; ", j + 1);
+		}
+		if (order == 0 && nto[0] == 1 && sawReady[1]) vf::add(W_COND_TO_THEN_SIG);
+		return bad; }; v.push_back(s); }
+}
+
 static std::string runScenario(const Scenario& s, const std::string* replay, vsched::ExploreStats* out) {
 	g_case = s.name;
 	std::string verdict;
-	auto body = [&]() { for (int i = 0; i < 16; i++) g_runs[i] = 0; g_value = 0; for (int i = 0; i < 64; i++) g_hits[i] = 0; for (int i = 0; i < 4; i++) g_cap[i] = 0; g_timeouts = 0; vf::asan_clear(); verdict = s.body(); if (vf::asan_tripped()) { verdict += "ASan " + vf::asan_what() + "; "; vf::asan_clear(); } };
+	auto body = [&]() { for (int i = 0; i < 16; i++) { g_runs[i] = 0; g_final[i] = -1; } g_value = 0; for (int i = 0; i < 64; i++) g_hits[i] = 0; for (int i = 0; i < 4; i++) g_cap[i] = 0; g_timeouts = 0; vf::asan_clear(); verdict = s.body(); if (vf::asan_tripped()) { verdict += "ASan " + vf::asan_what() + "; "; vf::asan_clear(); } };
 	auto after = [&](const vsched::Result& x) {
 		vf::add(C_EXEC); vf::add(C_POINTS, x.points.size()); if (x.preemptions) vf::add(W_PREEMPT);
 		// run_once has let the threads that were still alive when the scenario returned run to their end: what they touched then counts too
 		if (vf::asan_tripped()) { verdict += "ASan " + vf::asan_what() + " in a thread that was still running after the scenario had returned; "; vf::asan_clear(); }
+		for (int i = 0; i < 16; i++) if (g_final[i] >= 0 && g_runs[i] != g_final[i]) verdict += fmt("run %d had been executed %d time(s) when all threads of the execution had ended, expected %d; ", i + 1, (int)g_runs[i], g_final[i]);
 		if (vsched::invalid_joins()) verdict += fmt("%d join()/detach call(s) on an empty, detached or already joined thread handle; ", vsched::invalid_joins());
 		int early = 0, readyPts = 0;
 		for (size_t i = 0; i < x.points.size(); i++) { const vsched::PointInfo& q = x.points[i]; if (q.ntimer && q.chosen >= q.nenabled - q.ntimer) early++; if (q.kind == 20) readyPts++; }
@@ -248,23 +479,32 @@ static std::string runScenario(const Scenario& s, const std::string* replay, vsc
 // its join loop while NO thread has done its work, and the threads then finish in ascending / descending order. n < 0: the 3-argument form.
 static int g_pforForced, g_pforSlept;
 static void pforFn(int i) { vsched::point(); if (i >= -8 && i < 56) g_hits[i + 8]++; else g_hits[0] += 1000; }
-static Scenario pforScenario(int i0, int i1, int n, int bound, int mode, int k = 0, bool fnptr = false) {
+// rep 1: the same call a second time (".x2"); rep 2: followed by a call with a wider range and one more thread, parallel_for(i0-2, i1+3, f, n+1) (".x2w"):
+// nothing of the first call (threads, contexts, indices) may leak into the second. Expected count of f(i) = number of the calls whose range holds i.
+static Scenario pforScenario(int i0, int i1, int n, int bound, int mode, int k = 0, bool fnptr = false, int rep = 0) {
 	Scenario s; s.bound = bound;
 	std::string ns = n < 0 ? std::string("def") : fmt("%d", n);
 	s.name = fnptr ? fmt("parallel_for_fnptr.%d.%d.%s.b%d", i0, i1, ns.c_str(), bound) : mode == 2 ? fmt("parallel_for.%d.%d.%s.b%d.s%d", i0, i1, ns.c_str(), bound, k) : mode == 3 ? fmt("parallel_for.%d.%d.%s.b%d.t%d", i0, i1, ns.c_str(), bound, k) : fmt("parallel_for.%d.%d.%s.b%d.y%d", i0, i1, ns.c_str(), bound, mode);
+	if (rep) s.name += rep == 1 ? ".x2" : ".x2w";
 	int nn = std::min(n < 0 ? 8 : n, i1 - i0);
 	s.threads = nn >= 1;
-	s.body = [i0, i1, n, nn, mode, k, fnptr]() {
+	s.body = [i0, i1, n, nn, mode, k, fnptr, rep]() {
 		g_pforForced = 0; g_pforSlept = 0;
-		auto f = [mode, i0, k, nn](int i) { if (mode == 1) vsched::point(); else if (mode == 2 && i == i0 + k) { g_pforForced++; vsched::yield_spin(0); } else if (mode == 3 && i - i0 < nn) { g_pforSlept++; usleep(1000 * (k ? nn - (i - i0) : i - i0 + 1)); } if (i >= -8 && i < 56) g_hits[i + 8]++; else g_hits[0] += 1000; };
-		if (fnptr) Thread::parallel_for(i0, i1, &pforFn, n);
-		else if (n < 0) { Thread::parallel_for(i0, i1, f); vf::add(W_DEFAULT_NTH); }
-		else Thread::parallel_for(i0, i1, f, n);
-		clobberStack();
+		auto mk = [mode, k](int a0, int an) { return [mode, a0, k, an](int i) { if (mode == 1) vsched::point(); else if (mode == 2 && i == a0 + k) { g_pforForced++; vsched::yield_spin(0); } else if (mode == 3 && i - a0 < an) { g_pforSlept++; usleep(1000 * (k ? an - (i - a0) : i - a0 + 1)); } if (i >= -8 && i < 56) g_hits[i + 8]++; else g_hits[0] += 1000; }; };
+		std::string bad;
+		int calls = rep ? 2 : 1, lo[2] = { i0, rep == 2 ? i0 - 2 : i0 }, hi[2] = { i1, rep == 2 ? i1 + 3 : i1 }, nth[2] = { n, (rep == 2 && n > 0) ? n + 1 : n };
+		for (int c = 0; c < calls && bad.empty(); c++) {
+			int a0 = lo[c], a1 = hi[c], an = nth[c];
+			auto f = mk(a0, std::min(an < 0 ? 8 : an, a1 - a0));
+			if (fnptr) Thread::parallel_for(a0, a1, &pforFn, an);
+			else if (an < 0) { Thread::parallel_for(a0, a1, f); vf::add(W_DEFAULT_NTH); }
+			else Thread::parallel_for(a0, a1, f, an);
+			clobberStack();
+			if (c > 0) vf::add(W_PFOR_TWICE);
+			for (int i = -8; i < 56; i++) { int want = 0; for (int d = 0; d <= c; d++) if (i >= lo[d] && i < hi[d]) want++; if (g_hits[i + 8] != want) { bad = fmt("f(%d) was invoked %d time(s) by the time %sparallel_for(%d, %d, f%s) returned, expected %d", i, (int)g_hits[i + 8], c ? "the second call, " : "", a0, a1, an < 0 ? "" : fmt(", %d", an).c_str(), want); break; } }
+		}
 		if (g_pforForced) vf::add(W_YIELD_FORCED);
 		if (g_pforSlept) vf::add(W_ALL_BEHIND);
-		std::string bad;
-		for (int i = -8; i < 56; i++) { int want = (i >= i0 && i < i1) ? 1 : 0; if (g_hits[i + 8] != want) { bad = fmt("f(%d) was invoked %d time(s) by the time parallel_for(%d, %d, f%s) returned, expected %d", i, (int)g_hits[i + 8], i0, i1, n < 0 ? "" : fmt(", %d", n).c_str(), want); break; } }
 		return bad.empty() ? bad : bad + "; ";
 	};
 	return s;
@@ -290,6 +530,10 @@ int main(int argc, char** argv) {
 	W_WORKER_FIRST = vf::counter("w.thread_finished_before_creator_resumed"); W_CREATOR_FIRST = vf::counter("w.creator_resumed_before_thread_finished");
 	W_TRY_FAIL = vf::counter("w.trywait_found_no_permit"); W_TRY_OK = vf::counter("w.trywait_took_permit"); W_YIELD_FORCED = vf::counter("w.parallel_for_creator_got_ahead_at_bound0"); W_DEFAULT_NTH = vf::counter("w.parallel_for_default_thread_count"); W_ALL_BEHIND = vf::counter("w.parallel_for_creator_ahead_of_all_threads_at_bound0");
 	W_COPY_RUNNING = vf::counter("w.thread_copied_while_running"); W_UAR = vf::counter("w.stack_use_after_return_detection_on");
+	W_REUSE_CYCLES = vf::counter("w.reuse_cycles_completed"); W_REUSE_WAIT = vf::counter("w.reuse_later_cycle_creator_ahead_of_function"); W_REUSE_STALE = vf::counter("w.reuse_finished_still_set_during_later_run");
+	W_REUSE_GROUP = vf::counter("w.threadgroup_later_round"); W_REUSE_GROUP_GROW = vf::counter("w.threadgroup_member_added_between_rounds"); W_PFOR_TWICE = vf::counter("w.parallel_for_second_call"); W_INVOKE_TWICE = vf::counter("w.parallel_invoke_second_call");
+	W_SEM_ROUND2 = vf::counter("w.semaphore_second_round"); W_COND_ROUND2 = vf::counter("w.condition_second_round"); W_SEM_TO_THEN_ACQ = vf::counter("w.semaphore_timeout_round_then_acquiring_round"); W_COND_TO_THEN_SIG = vf::counter("w.condition_timeout_round_then_signalled_round");
+	W_FINISH_HOOK = vf::counter("w.finish_hook_ran_in_thread"); W_FUNCTOR_DTOR = vf::counter("w.functor_copy_destroyed_in_thread");
 	C_EXPECT_PRE = vf::counter("scenarios_expecting_preemption"); C_WITH_PRE = vf::counter("scenarios_with_preemption"); C_SKIPPED = vf::counter("scenarios_skipped_deadline");
 #ifdef ASL_VERIF_HAVE_READY_POINT
 	W_READY_POINT = vf::counter("w.ready_flag_points");
@@ -298,6 +542,7 @@ int main(int argc, char** argv) {
 	vsched::set_strict_joins(true);
 	bool T = vf::opt.thorough();
 	std::vector<Scenario> sc = scenarios(T);
+	reuseScenarios(sc, T);
 	// parallel_for: small ranges under all schedules within a preemption bound, with a yield inside f
 	for (int i0 = -3; i0 <= 6; i0++) for (int i1 = -3; i1 <= 6; i1++) for (int n = 1; n <= 4; n++) { if (i1 - i0 > 5 && n > 3) continue; sc.push_back(pforScenario(i0, i1, n, (i1 - i0 <= 3 || n <= 2) ? (T ? 3 : 2) : (T ? 2 : 1), 1)); }
 	// ... with a plain function instead of a lambda
@@ -312,6 +557,12 @@ int main(int argc, char** argv) {
 	// ... and with one thread k that lets its creator get ahead and then competes with the later threads (quick: n <= 3, every k; thorough: also n <= 12, first and last thread)
 	for (int i0 = -3; i0 <= 40; i0++) for (int i1 = i0 + 1; i1 <= 40; i1++) for (int n = 1; n <= 12; n++) { int nn = std::min(n, i1 - i0); for (int k = 0; k < nn; k++) if (n <= 3 || (T && (k == 0 || k == nn - 1))) sc.push_back(pforScenario(i0, i1, n, 0, 2, k)); }
 	if (T) for (int i0 = -3; i0 <= 12; i0++) for (int i1 = i0; i1 <= 12; i1++) for (int n = 1; n <= 6; n++) sc.push_back(pforScenario(i0, i1, n, 1, 0));
+	// parallel_for called twice in a row (the scheduler holds 15 threads per execution: n <= 7 for the same call again, n <= 6 when the second call is the wider one)
+	for (int i0 = -3; i0 <= 40; i0++) for (int i1 = -3; i1 <= 40; i1++) for (int n = 1; n <= 7; n++) sc.push_back(pforScenario(i0, i1, n, 0, 0, 0, false, 1));
+	for (int i0 = -3; i0 <= 40; i0++) for (int i1 = i0 + 1; i1 <= std::min(40, i0 + 7); i1++) sc.push_back(pforScenario(i0, i1, -1, 0, 0, 0, false, 1));
+	for (int i0 = -3; i0 <= 40; i0++) for (int i1 = i0 + 1; i1 <= 40; i1++) for (int n = 1; n <= 6; n++) sc.push_back(pforScenario(i0, i1, n, 0, 3, 0, false, 2));
+	for (int i0 = -3; i0 <= 6; i0++) for (int i1 = -3; i1 <= 6; i1++) for (int n = 1; n <= 3; n++) for (int rep = 1; rep <= 2; rep++) sc.push_back(pforScenario(i0, i1, n, T ? 2 : 1, 1, 0, false, rep));
+	sc.push_back(pforScenario(0, 5, 2, T ? 2 : 1, 1, 0, true, 1));
 	if (vf::opt.replay) {
 		std::string k = vf::opt.kase, sched; size_t bar = k.find('|'); if (bar != std::string::npos) { sched = k.substr(bar + 1); k = k.substr(0, bar); }
 		bool found = false;
@@ -319,6 +570,8 @@ int main(int argc, char** argv) {
 		if (!found) { fprintf(stderr, "HARNESS ERROR: no scenario named %s\n", k.c_str()); return 2; }
 		return vf::finish();
 	}
+	// development aid (detection proofs per family): C13_ONLY=<prefix> explores only the scenarios whose name starts with it; ./check then fails the run on the zero witnesses
+	if (const char* only = getenv("C13_ONLY")) { std::vector<Scenario> keep; for (size_t i = 0; i < sc.size(); i++) if (sc[i].name.compare(0, strlen(only), only) == 0) keep.push_back(sc[i]); sc.swap(keep); }
 	vf::parallel(sc.size(), [&](uint64_t i) { vf::cur(sc[i].name); if (vf::deadline_passed()) { vf::add(C_SKIPPED); vf::cap_hit("deadline"); return; } if (i == 0 && uarActive()) vf::add(W_UAR); vsched::ExploreStats st; runScenario(sc[i], 0, &st); if (getenv("VF_DEBUG")) { FILE* df = fopen(getenv("VF_DEBUG"), "a"); if (df) { fprintf(df, "%s %llu %llu\n", sc[i].name.c_str(), (unsigned long long)st.executions, (unsigned long long)st.points); fclose(df); } } });
 	vf::setinfo("scenarios", fmt("%d", (int)sc.size()));
 	vf::sample("lambda.body0: Thread t([]{}); t.join(); t.finished() - all schedules of creator / worker / ready-flag spin");
